@@ -51,10 +51,12 @@ DESIGN = [
      "3 versions, 2 requests"),
     ("HeimdallMC_poll.cfg", 2, 3, "endpoints (polls), 2 sources, 2 requests"),
     ("HeimdallMC.cfg", 2, 3, "file sources (notifications), 2 sources, 2 requests"),
-    ("HeimdallMC_stamped.cfg", 2, 3, "observer with counter stamps (as in recorded traces), 1 source"),
-    ("HeimdallMC_live.cfg", 2, 3, "liveness Converges + action property InvalidKeeps, file source"),
+    ("HeimdallMC_stamped.cfg", 2, 2, "observer with counter stamps (as in recorded traces), 1 source"),
+    ("HeimdallMC_live.cfg", 2, 2, "liveness Converges + action property InvalidKeeps, file source"),
     ("HeimdallMC_live_poll.cfg", 2, 2, "liveness Converges + action property InvalidKeeps, endpoint"),
+    ("HeimdallMC_live_v3.cfg", 3, 3, "liveness Converges with files rewritten in place (torn reads), thorough tier"),
 ]
+THOROUGH_ONLY = ("HeimdallMC_live_poll.cfg", "HeimdallMC_live_v3.cfg")
 # negative controls: (cfg, what TLC must report)
 CONTROLS = [
     ("HeimdallMC_delete_add.cfg", "CtrE2"), ("HeimdallMC_delete_add_state.cfg", "InvE2"),
@@ -73,7 +75,7 @@ PARAMS = {
     "quick": dict(gen={"VERIF_GEN_N": 2, "VERIF_GEN_RANDOM": 60, "VERIF_GEN_RANDLEN": 8, "VERIF_GEN_UPD": 4},
                   pick={"exh": 30, "upd": 32, "burst": 8, "pre": 16, "rand": 26}, parallel=6, requests=4, judges=4),
     "thorough": dict(gen={"VERIF_GEN_N": 3, "VERIF_GEN_RANDOM": 500, "VERIF_GEN_RANDLEN": 12, "VERIF_GEN_UPD": 6},
-                     pick={"exh": 700, "upd": 432, "burst": 8, "pre": 160, "rand": 500}, parallel=8, requests=4, judges=6),
+                     pick={"exh": 400, "upd": 240, "burst": 8, "pre": 120, "rand": 300}, parallel=8, requests=4, judges=6),
 }
 
 RULE = ("run = one TLC-generated environment history (valid versions v1.. / empty / invalid (not YAML, unknown "
@@ -116,7 +118,7 @@ def design_run(work, tier):
 
     # quick: the controls stated on the contract (what judges the real traces); thorough: also the same mutants
     # against the properties stated on the composition's own state, and the liveness run for endpoints
-    designs = [d for d in DESIGN if not (quick and d[0] == "HeimdallMC_live_poll.cfg")]
+    designs = [d for d in DESIGN if not (quick and d[0] in THOROUGH_ONLY)]
     controls = [(c, e) for c, e in CONTROLS if not (quick and c.endswith("_state.cfg"))]
     with ThreadPoolExecutor(max_workers=8 if quick else 6) as ex:
         mains = [ex.submit(main, *d) for d in designs]
@@ -173,9 +175,14 @@ def execute(work, binary, hists, seed, tag, tier):
     hf, tf = work.path("e2e_hist_%s.ndjson" % tag), work.path("e2e_trace_%s.ndjson" % tag)
     write_ndjson(hf, hists)
     p = PARAMS[tier]
-    out, err, rc = c1617.run(binary, ["-histories", hf, "-trace", tf, "-dir", work.dir, "-seed", seed,
-                                      "-parallel", p["parallel"], "-requests", p["requests"]],
-                             timeout=1500)
+    args = ["-histories", hf, "-trace", tf, "-dir", work.dir, "-seed", seed, "-parallel", p["parallel"],
+            "-requests", p["requests"]]
+    out, err, rc = c1617.run(binary, args, timeout=1500)
+    if rc != 0 and "panic:" not in out + err and "fatal error:" not in out + err:
+        # heimdall terminates the process when a listener cannot bind (port taken by another process between
+        # reservation and start): once more
+        log("e2e: driver failed (rc=%d: %s); once more" % (rc, (out + err).strip()[-200:]))
+        out, err, rc = c1617.run(binary, args, timeout=1500)
     if rc != 0:
         raise Infra("e2edrv failed (rc=%d):\n%s" % (rc, (out + err)[-5000:]))
     try:
@@ -264,17 +271,26 @@ def reproduce(work, binary, by_id, bad, seed, tier, copies=16, times=3):
             h = copy.deepcopy(by_id[hid])
             h["id"] = "%s#%d" % (hid, c)
             hists.append(h)
-    found = {}
-    for n in range(times):
-        if len(found) == len(want):
+    found, lost = {}, 0
+    for n in range(times + 2):
+        if len(found) == len(want) or n - lost >= times:
             break
-        lines, _ = execute(work, binary, hists, seed * 1000 + n + 1, "repro%d" % n, tier)
+        try:
+            lines, _ = execute(work, binary, hists, seed * 1000 + n + 1, "repro%d" % n, tier)
+        except Infra as e:
+            # e.g. the service terminated (a mutated provider may trip over a file that vanishes while it is
+            # being loaded): this repetition is lost
+            lost += 1
+            log("e2e: a repetition failed (%s); trying again" % str(e).split("\n")[1 if "\n" in str(e) else 0][:200])
+            continue
         v = judge(work, lines, "repro%d" % n, parts=PARAMS[tier]["judges"])
         for b in v["bad"]:
             k = (b["reason"], b["facts"]["kind"])
             if k in want and k not in found:
                 b["trace"] = [e for e in lines if e["run"] == b["run"] and e["ev"] != "req"] + [b["event"]]
                 found[k] = (b, by_id[base_id(b["run"])])
+    if lost and not found and lost >= times:
+        raise Infra("the histories with rejections could not be executed again (%d attempts failed)" % lost)
     missing = {k: v for k, v in want.items() if k not in found}
     return found, missing
 
